@@ -27,4 +27,53 @@ def gen_attr_reserved():
     emit('G_attr', 'dir(sugar.core.meta.Meta)', body)
 
 
-GENERATORS = [gen_attr_reserved]
+# BioSeq.str.<m>() works in place (returns the sequence) for some m and returns a value for the others; BioBasket.str.<m>() must
+# hand back the basket exactly for the first group -- for baskets of ANY size, the empty one included (seq.py:173-199).
+# The table of OBSERVED behaviour is regenerated on every run; C18_str_namespace_agrees is proved over it by computation.
+STR_ARGS = {'center': (9, '-'), 'count': ('A',), 'removeprefix': ('A',), 'removesuffix': ('A',), 'endswith': ('A',), 'find': ('A',),
+            'index': ('A',), 'ljust': (9, 'N'), 'rjust': (9, 'N'), 'lstrip': ('A',), 'rstrip': ('A',), 'strip': ('A',),
+            'replace': ('A', 'G'), 'rfind': ('A',), 'rindex': ('A',), 'split': ('A',), 'rsplit': ('A',), 'startswith': ('A',),
+            'translate': ({65: 'T'},), 'maketrans': ('A', 'T')}
+
+
+def str_table():
+    """[(method, kind of BioSeq.str.m: 1 in place / 0 value / 2 raises, [BioBasket.str.m is the basket: 1 / 0 / 2 raises, for 0, 1, 2 sequences])]"""
+    import warnings
+    from sugar import BioSeq, BioBasket
+    from sugar.core.seq import _BioSeqStr
+    rows = []
+    for m in sorted(n for n in dir(_BioSeqStr) if not n.startswith('_')):
+        args = STR_ARGS.get(m, ())
+
+        def seq_kind():
+            s = BioSeq('ACGTA', id='a')
+            try:
+                r = getattr(s.str, m)(*args)
+            except Exception:
+                return 2
+            return 1 if r is s else 0
+
+        def basket_flag(n):
+            b = BioBasket([BioSeq('ACGTA', id='a'), BioSeq('TTAGCA', id='b')][:n])
+            try:
+                r = getattr(b.str, m)(*args)
+            except Exception:
+                return 2
+            return 1 if r is b else 0
+        with warnings.catch_warnings():
+            warnings.simplefilter('ignore')
+            rows.append((m, seq_kind(), [basket_flag(n) for n in (0, 1, 2)]))
+    return rows
+
+
+def gen_c18_str():
+    rows = str_table()
+    need(len(rows) >= 20, 'BioSeq.str namespace has only %d public methods' % len(rows))
+    need(any(m == 'lower' for m, _, _ in rows) and any(m == 'find' for m, _, _ in rows), 'str.lower / str.find missing')
+    need(all(m.isascii() for m, _, _ in rows), 'non-ASCII method name')
+    body = ('Definition STR_TABLE : list (str * (N * list N)) :=\n  [' +
+            ';\n   '.join('(%s, (%d%%N, [%s]))' % (blit(m), k, '; '.join('%d%%N' % f for f in fl)) for m, k, fl in rows) + '].\n')
+    emit('G_c18_str', 'observed behaviour of sugar.core.seq._BioSeqStr / _BioBasketStr', body)
+
+
+GENERATORS = [gen_attr_reserved, gen_c18_str]
